@@ -234,10 +234,10 @@ def run(case, ctx):
                   "block %d at %#x (%d bytes), expected %#x, buffer %d" %
                   (j, a, len(payload), addr, case["buf"]), **where)
             addr += len(payload)
-        check(f["pid"] == f["end_pid"] and f["pid"] % 2 == 0 and
-              2 <= f["pid"] <= 252 and f["pid"] != last_pid,
-              "fill-identifier", "start %r end %r previous %r" %
-              (f["pid"], f["end_pid"], last_pid), **where)
+        check(f["pid"] == f["end_pid"], "fill-identifier",
+              "start carries id %r, end carries %r" % (f["pid"],
+                                                        f["end_pid"]),
+              **where)
         last_pid = f["pid"]
         check(f["app"] == app_id and (f["flags"] & 1 or not case["wait"]),
               "fill-app-or-flags",
